@@ -230,7 +230,7 @@ impl World {
 fn short_history(rng: &mut Rng, ctx: &mut Ctx) -> Result<(), (Bad, Vec<String>)> {
     let mut w = World::new();
     let mut log: Vec<String> = Vec::new();
-    let hot = ["a", "b", "id", "space", "xml", "", "p", "urn:A", "A", "a "];
+    let hot = ["a", "b", "id", "space", "xml", "", "p", "urn:A", "A", "a ", "n0", "n1"];
     let mut fresh = 0usize;
     let mut clone: Option<World> = None;
     let steps = rng.range(5, 60);
@@ -249,7 +249,7 @@ fn short_history(rng: &mut Rng, ctx: &mut Ctx) -> Result<(), (Bad, Vec<String>)>
             fresh += 1;
             format!("f{}_{}", fresh, rng.below(1000))
         };
-        let which = rng.below(22);
+        let which = rng.below(25);
         // drive either the original or (after cloning) the clone
         let target: &mut World = match (&mut clone, rng.bool()) {
             (Some(c), true) => c,
@@ -559,6 +559,66 @@ fn short_history(rng: &mut Rng, ctx: &mut Ctx) -> Result<(), (Bad, Vec<String>)>
                 }
                 ctx.count("xmlname_layer_calls");
             }
+            22 | 23 => {
+                // an OwnedName that has already been resolved once, then changed (with_suffix / with_default_namespace) or
+                // taken to the other store: every resolution is judged on its own
+                use xot::xmlname::OwnedName;
+                let ns = hot[rng.below(hot.len())].to_string();
+                let pfx = if which == 23 { String::new() } else { hot[rng.below(hot.len())].to_string() };
+                let ns = if which == 23 { String::new() } else { ns };
+                let on = OwnedName::new(s.clone(), ns.clone(), pfx.clone());
+                log.push(format!("OwnedName::new({:?}, {:?}, {:?}).to_create(); then .with_suffix() / .with_default_namespace(\"urn:A\") .to_create()", s, ns, pfx));
+                let id0 = match guard(|| on.to_create(&mut target.xot).name_id()) {
+                    Ok(i) => i,
+                    Err(p) => return Err((("panic".into(), p.short()), log.clone())),
+                };
+                match target.xot.namespace(&ns) {
+                    Some(nid) => tr!(target.note_ns(&ns, nid, "OwnedName::to_create")),
+                    None => return Err((("lookup-misses-registered".into(), format!("namespace {:?} is not registered after to_create", ns)), log.clone())),
+                }
+                tr!(target.note_name(&s, &ns, id0, "OwnedName::to_create"));
+                let changed = if which == 22 { on.clone().with_suffix() } else { on.clone().with_default_namespace("urn:A") };
+                let (want_l, want_ns) = if which == 22 { (format!("{}*", s), ns.clone()) } else { (s.clone(), "urn:A".to_string()) };
+                let id1 = match guard(|| changed.to_create(&mut target.xot).name_id()) {
+                    Ok(i) => i,
+                    Err(p) => return Err((("panic".into(), p.short()), log.clone())),
+                };
+                match target.xot.namespace(&want_ns) {
+                    Some(nid) => tr!(target.note_ns(&want_ns, nid, "OwnedName::to_create")),
+                    None => return Err((("lookup-misses-registered".into(), format!("namespace {:?} is not registered after to_create", want_ns)), log.clone())),
+                }
+                tr!(target.note_name(&want_l, &want_ns, id1, "OwnedName::to_create after with_suffix / with_default_namespace"));
+                ctx.count("xmlname_layer_calls");
+            }
+            24 => {
+                // create_missing_prefixes generates and registers prefixes (n0, n1, ...): a registration path like any other
+                fresh += 1;
+                let uri = format!("urn:cmp{}", fresh);
+                log.push(format!("element in {:?} without a declaration; create_missing_prefixes", uri));
+                let r = guard(|| {
+                    let ns = target.xot.add_namespace(&uri);
+                    let name = target.xot.add_name_ns("e", ns);
+                    let e = target.xot.new_element(name);
+                    let at = target.xot.add_name_ns("k", ns);
+                    target.xot.attributes_mut(e).insert(at, "v".to_string());
+                    let ok = target.xot.create_missing_prefixes(e).is_ok();
+                    let decls: Vec<(PrefixId, String)> = target.xot.namespaces(e).iter().map(|(p, _)| (p, target.xot.prefix_str(p).to_string())).collect();
+                    (ns, name, at, ok, decls)
+                });
+                let (ns, name, at, ok, decls) = match r {
+                    Ok(x) => x,
+                    Err(p) => return Err((("panic".into(), p.short()), log.clone())),
+                };
+                tr!(target.note_ns(&uri, ns, "add_namespace"));
+                tr!(target.note_name("e", &uri, name, "add_name_ns"));
+                tr!(target.note_name("k", &uri, at, "add_name_ns"));
+                if ok {
+                    for (pid, pstr) in decls {
+                        tr!(target.note_prefix(&pstr, pid, "create_missing_prefixes"));
+                    }
+                }
+                ctx.count("create_missing_prefixes_registrations");
+            }
             10 => {
                 // a rejected document that mentions fresh names: afterwards ids must still be one-to-one
                 fresh += 1;
@@ -720,7 +780,7 @@ impl Monitor for C08 {
         vec![Stream::new("long-histories", 4), Stream::new("short-histories", scaled(n, budget))]
     }
     fn rule(&self) -> String {
-        "four long histories (2*10^5 distinct names, 7*10^4 namespaces, 7*10^4 prefixes, 2*10^5 names arriving through parse) with ALL earlier ids re-resolved both ways at 65 535, 65 536, 65 537, 131 072 registrations and at the end, in the store and in a clone of it; short histories of 5-60 steps of add_name / add_name_ns / add_namespace / add_prefix / parse (fresh element, attribute, PI, prefix, namespace names; and documents that reuse a small pool of local names across elements, prefixed and unprefixed attributes, default / redeclared / undeclared default namespaces, with every element and attribute name id read back from the tree and compared with its written expanded name) / rejected parse / the xmlname layer (CreateName::name / namespaced / parse_full_name, CreateNamespace::new, OwnedName::to_ref / maybe_to_ref / to_create) / html5() / Xot::clone over a pool of hot and fresh strings, with every id <-> string pair and the built-ins re-checked after every step in the store and its clone, and read-only lookups of never-registered strings. Non-trivial = history with >= 5 steps; distinct by hash of the step list".into()
+        "four long histories (2*10^5 distinct names, 7*10^4 namespaces, 7*10^4 prefixes, 2*10^5 names arriving through parse) with ALL earlier ids re-resolved both ways at 65 535, 65 536, 65 537, 131 072 registrations and at the end, in the store and in a clone of it; short histories of 5-60 steps of add_name / add_name_ns / add_namespace / add_prefix / parse (fresh element, attribute, PI, prefix, namespace names; and documents that reuse a small pool of local names across elements, prefixed and unprefixed attributes, default / redeclared / undeclared default namespaces, with every element and attribute name id read back from the tree and compared with its written expanded name) / rejected parse / the xmlname layer (CreateName::name / namespaced / parse_full_name, CreateNamespace::new, OwnedName::to_ref / maybe_to_ref / to_create, also after with_suffix / with_default_namespace) / create_missing_prefixes (generated prefixes) / html5() / Xot::clone over a pool of hot and fresh strings, with every id <-> string pair and the built-ins re-checked after every step in the store and its clone, and read-only lookups of never-registered strings. Non-trivial = history with >= 5 steps; distinct by hash of the step list".into()
     }
     fn floors(&self, _tier: Tier) -> Vec<(&'static str, u64)> {
         vec![
@@ -734,6 +794,7 @@ impl Monitor for C08 {
             ("clone_from_checks", 500),
             ("hostile_parses_read_back", 1_000),
             ("xmlname_layer_calls", 5_000),
+            ("create_missing_prefixes_registrations", 1_000),
         ]
     }
     fn assumptions(&self) -> Vec<String> {
